@@ -158,8 +158,14 @@ def callbacks_part(ck: Check):
             ok_all = False
             ck.counterexample(f'callback:range:{lb}{rb}', f'range_literal({lb!r}, 1, n, {rb!r}) built {r!r}', {'kind': 'callback'})
     # literals and constants
-    for tok, want in (('12', 12), ('0', 0), ('1.5', 1.5), ('2e3', 2000.0), ('.5', 0.5), ('5.', 5.0), ('1e400', float('inf'))):
-        lit = T.number(tok)
+    for tok, want in (('12', 12), ('0', 0), ('1.5', 1.5), ('2e3', 2000.0), ('.5', 0.5), ('5.', 5.0), ('1e400', float('inf')), ('9007199254740993', 9007199254740993),
+                      ('12345678901234567891', 12345678901234567891), ('1' + '0' * 400, 10 ** 400), ('007', 7), ('1e1', 10.0), ('10', 10)):
+        try:
+            lit = T.number(tok)
+        except Exception as e:
+            ok_all = False
+            ck.counterexample(f'callback:number:{tok[:24]}', f'number({tok[:40]!r}) raised {type(e).__name__}: {short(e, 80)}', {'kind': 'callback'})
+            continue
         if lit.value != want or type(lit.value) is not type(want) or lit.token != tok:
             ok_all = False
             ck.counterexample(f'callback:number:{tok}', f'number({tok!r}) = {lit!r}', {'kind': 'callback'})
